@@ -55,5 +55,35 @@ func init() {
 				})})
 			}})
 		}
+		// the replacement of a crashed child crashes at once (from a message it sends itself in Init): the supervisor
+		// must notice that termination too and start a third incarnation
+		harn.Register(harn.Scenario{Property: "C08", Name: fmt.Sprintf("realnode-%s-replacement-dies-at-once", tn), Shards: 8, Run: func(c *harn.Ctx) *harn.Result {
+			qb := 2
+			if typ != act.SupervisorTypeOneForOne {
+				qb = 1 // (restarting all children again multiplies the schedules; bound 2 is left to the thorough tier)
+			}
+			return harn.Explore(c, harn.Sched{QuickBound: qb, ThoroughBound: qb + 1, Preempt: true, Cache: true, HorizonS: 30, Body: nodeBody(func(w *World) {
+				t := newTree(w)
+				t.factories = map[string]gen.ProcessFactory{}
+				t.selfFail["w1"] = 2
+				f := t.sup("S", typ, "w1", "w2")
+				w.Setup("start", func() {
+					if _, err := w.n.Spawn(f, gen.ProcessOptions{}); err != nil {
+						panic(err)
+					}
+				})
+				w.ex.Thread("A", func() { w.n.Send(w.pids["w1"], "fail") })
+				w.Check = func() {
+					if !t.anyAlive("S") {
+						w.ex.Fail("supervisor-died-on-restart", "the %s supervisor terminated (w1 started %d times)", tn, len(t.all["w1"]))
+						return
+					}
+					if len(t.all["w1"]) != 3 || !t.anyAlive("w1") {
+						w.ex.Fail("child-termination-unnoticed", "w1 crashed, its replacement crashed at once: w1 was started %d times (want 3), alive=%v - the supervisor did not notice the second termination", len(t.all["w1"]), t.anyAlive("w1"))
+					}
+					w.Out("w1=%d w2=%d", len(t.all["w1"]), len(t.all["w2"]))
+				}
+			})})
+		}})
 	}
 }
